@@ -196,6 +196,7 @@ impl<'tcx> Cx<'tcx> {
                 o.push(("promoted", J::B(true)));
                 // name the constants the promoted body mentions (e.g. `&TX_SEPARATOR`)
                 let mut names: Vec<String> = Vec::new();
+                let mut variants: Vec<String> = Vec::new();
                 if uv.def.is_local() {
                     let bodies = tcx.promoted_mir(uv.def);
                     if let Some(pb) = bodies.get(p) {
@@ -206,7 +207,16 @@ impl<'tcx> Cx<'tcx> {
                                     match &b.1 {
                                         Rvalue::Use(o, ..) | Rvalue::Cast(_, o, _) | Rvalue::Repeat(o, _) | Rvalue::UnaryOp(_, o) => ops.push(o),
                                         Rvalue::BinaryOp(_, ab) => { ops.push(&ab.0); ops.push(&ab.1); }
-                                        Rvalue::Aggregate(_, xs) => { for x in xs.iter() { ops.push(x); } }
+                                        Rvalue::Aggregate(kind, xs) => {
+                                            // `&Enum::Variant` (a promoted unit variant used as a comparison operand)
+                                            if let AggregateKind::Adt(adid, vidx, ..) = &**kind {
+                                                let adt = tcx.adt_def(*adid);
+                                                if adt.is_enum() {
+                                                    variants.push(adt.variant(*vidx).name.to_string());
+                                                }
+                                            }
+                                            for x in xs.iter() { ops.push(x); }
+                                        }
                                         _ => {}
                                     }
                                     for op in ops {
@@ -222,6 +232,9 @@ impl<'tcx> Cx<'tcx> {
                             }
                         }
                     }
+                }
+                if variants.len() == 1 {
+                    o.push(("pvariant", s(variants[0].clone())));
                 }
                 if names.len() == 1 {
                     o.push(("named", s(names[0].clone())));
